@@ -547,6 +547,47 @@ def arbitrary_objects():
     return n, bad
 
 
+def hostile_modules():
+    """extract() starts by scanning sys.modules for glue: whatever sits there (a lazily loaded module whose import
+    fails the moment it is touched, a proxy that refuses every attribute, None, an object without a __dict__), the call
+    still returns a Stack with the target's frames and no error of its own"""
+    class Refuses:
+        def __init__(self, exc):
+            object.__setattr__(self, "_exc", exc)
+
+        def __getattribute__(self, name):
+            raise object.__getattribute__(self, "_exc")("no attribute access: %s" % name)
+
+    def tgt():
+        yield 1
+    bad, n = [], 0
+    g = tgt()
+    next(g)
+    base = [f.pyframe for f in stackscope.extract(g).frames]
+    hostile = [Refuses(ModuleNotFoundError), Refuses(ImportError), Refuses(KeyError), Refuses(RuntimeError), Refuses(OSError),
+               None, object(), 42]
+    for k, h in enumerate(hostile):
+        name = "zz_verif_hostile_%d" % k
+        sys.modules[name] = h
+        try:
+            for _ in range(2):
+                n += 1
+                try:
+                    with warnings.catch_warnings(record=True):
+                        warnings.simplefilter("always")
+                        st = stackscope.extract(g)
+                except BaseException as ex:
+                    bad.append("sys.modules holds %s: extract raised %r" % (
+                        type(h).__name__ if not isinstance(h, Refuses) else "an object that refuses every attribute access", ex))
+                    break
+                if [f.pyframe for f in st.frames] != base or st.error is not None:
+                    bad.append("sys.modules holds a hostile entry: frames / error changed (%r)" % (st.error,))
+        finally:
+            del sys.modules[name]
+    g.close()
+    return n, bad
+
+
 def main():
     max_k = int(sys.argv[2]) if len(sys.argv) > 2 else 0
     rec = rec_m1.Recorder()
@@ -559,7 +600,8 @@ def main():
     inj.uninstall()
     rec.uninstall()
     n, bad = arbitrary_objects()
-    out["objects"] = {"n": n, "bad": bad}
+    n2, bad2 = hostile_modules()
+    out["objects"] = {"n": n + n2, "bad": bad + bad2}
     json.dump(out, open(sys.argv[1], "w"))
 
 
